@@ -125,6 +125,12 @@ pub(crate) fn execute_with_stream<'i>(
             });
         }
     }
+    #[cfg(aquavm_verif)]
+    if let Some(states) = trace_ctx.verif_fold_after_states_unconsumed(fold_id) {
+        if states > 0 {
+            crate::verif_hooks::emit(crate::verif_hooks::Event::FoldAfterStatesUnconsumed { fold_id, states });
+        }
+    }
     trace_to_exec_err!(trace_ctx.meet_fold_end(fold_id), fold_to_string)?;
     Ok(())
 }
